@@ -315,6 +315,48 @@ def p_div_mono(a, d):
     return {_mono_div(m, d): c for m, c in a.items()}
 
 
+def p_exact_div(num, den):
+    """quotient q with q*den == num, or None (multivariate long division in a lexicographic order; exact)"""
+    if not den or len(den) > 60 or len(num) > 400:
+        return None
+    ids = sorted({a for p in (num, den) for m in p for a, _ in m})
+    order = lambda m: tuple(dict(m).get(a, 0) for a in ids)
+    dl = max(den, key=order)
+    dc = den[dl]
+    rem = dict(num)
+    q = {}
+    for _ in range(len(num) * 4 + 16):
+        if not rem:
+            return q
+        lt = max(rem, key=order)
+        d = dict(lt)
+        for a, e in dl:
+            if d.get(a, 0) < e:
+                return None
+            d[a] -= e
+            if not d[a]:
+                del d[a]
+        tm = tuple(sorted(d.items()))
+        tc = rem[lt] / dc
+        q[tm] = q.get(tm, 0) + tc
+        rem = p_add(rem, _p_mul_raw({tm: tc}, den), -1)
+    return None
+
+
+def _p_mul_raw(a, b):
+    """product without applying rewrite relations (used by exact division)"""
+    r = {}
+    for m1, c1 in a.items():
+        for m2, c2 in b.items():
+            m = _mono_mul(m1, m2)
+            v = r.get(m, 0) + c1 * c2
+            if v:
+                r[m] = v
+            else:
+                r.pop(m, None)
+    return r
+
+
 def p_str(a, limit=12):
     """canonical text: independent of atom interning order (terms and factors sorted by name)"""
     if not a:
@@ -472,7 +514,11 @@ class Rat:
         if p_is_const(den):
             cv = den[ONE_M]
             num, den = p_scale(num, 1 / cv), {ONE_M: Fraction(1)}
-        elif len(num) == len(den) and len(den) > 1:
+        elif 1 < len(den) <= len(num) and len(den) <= 40 and len(num) <= 300:
+            qd = p_exact_div(num, den)
+            if qd is not None and p_mul(qd, den) == num:
+                num, den = qd, {ONE_M: Fraction(1)}
+        if len(num) == len(den) and len(den) > 1:
             # num = k*den ?
             k = None
             ok = True
@@ -951,6 +997,9 @@ def _sqrt_poly(p) -> Rat:
             a = _ATOMS[m[0][0]]
             if a.kind == "fn" and a.name == "sqrt":
                 pass
+    for aid, rep in SQ_RULES.items():
+        if prim == rep:
+            return out * absf(Rat({((aid, 1),): Fraction(1)}))
     if len(prim) == 2 and prim.get(ONE_M) == 1:
         # sqrt(1 - cos(a)^2) -> |sin(a)|
         (m2, c2), = [(m, c) for m, c in prim.items() if m]
